@@ -13,6 +13,16 @@ use std::sync::atomic::{AtomicBool, AtomicU64, Ordering};
 use std::sync::Mutex;
 use std::time::Instant;
 
+/// lane threads get a large (virtual) stack: reference walkers recurse as deep as the visit budget allows
+const LANE_STACK: usize = 256 << 20;
+
+fn spawn_lane<'scope, 'env, F>(sc: &'scope std::thread::Scope<'scope, 'env>, f: F)
+where
+    F: FnOnce() + Send + 'scope,
+{
+    std::thread::Builder::new().stack_size(LANE_STACK).spawn_scoped(sc, f).expect("spawn lane thread");
+}
+
 #[derive(Clone, Copy, Debug)]
 pub struct PtCfg {
     pub lanes: usize,
@@ -75,7 +85,7 @@ where
         for lane in 0..cfg.lanes {
             let f = &f;
             let mk = &mk;
-            sc.spawn(move || {
+            spawn_lane(sc, move || {
                 let seed = ctx.lane_seed(sub, lane);
                 let mut seed_bytes = [0u8; 32];
                 for (i, ch) in seed_bytes.chunks_mut(8).enumerate() {
@@ -105,6 +115,14 @@ where
                             format!("panic/uncaught/{}", p.site()),
                             format!("uncaught panic: {} at {}", p.msg, p.loc),
                         )),
+                    };
+                    // infrastructure outcomes (timeouts, worker trouble) are recorded at once and never shrunk
+                    let r = match r {
+                        Err(fail) if fail.sig.contains("/INFRA/") => {
+                            ctx.rec.violation(&ctx.verif_dir, ctx.prop, sub, &fail, serde_json::to_value(&c).unwrap_or(Value::Null));
+                            Ok(Meta::new(false))
+                        }
+                        other => other,
                     };
                     let mut fl = failed.borrow_mut();
                     match (r, fl.as_ref()) {
@@ -188,7 +206,7 @@ where
             let next = &next;
             let stop = &stop;
             let fails = &fails;
-            sc.spawn(move || {
+            spawn_lane(sc, move || {
                 let mut acc = LaneAcc::default();
                 let mut local: BTreeMap<String, (u64, Fail)> = BTreeMap::new();
                 loop {
@@ -266,7 +284,7 @@ where
         for lane in 0..ctx.lanes.min(cases.len().max(1)) {
             let f = &f;
             let next = &next;
-            sc.spawn(move || {
+            spawn_lane(sc, move || {
                 let mut acc = LaneAcc::default();
                 loop {
                     let i = next.fetch_add(1, Ordering::Relaxed);
